@@ -304,6 +304,13 @@ func GenTrip(rng *rand.Rand, thorough bool, emit func(*Sx)) {
 		calls := []TripCall{{Kind: "mail", Arg: a, MO: &smtp.MailOptions{UTF8: true}}, {Kind: "rcpt", Arg: a}, {Kind: "quit"}}
 		emit(RunTrip(TripCase{Cfg: cfg, Calls: calls, Extra: []*Sx{L(A("focus"), A("C14"))}}))
 	}
+	// known finding F29: a non-ASCII Unicode space inside a UTF-8 ORCPT (sent raw when SMTPUTF8 is offered)
+	for _, v := range []string{"x@y\u00a0", "x\u2003y@z", "\u3000x@y"} {
+		cfg := fullCfg(false)
+		ro := &smtp.RcptOptions{OriginalRecipientType: smtp.DSNAddressTypeUTF8, OriginalRecipient: v}
+		calls := []TripCall{{Kind: "mail", Arg: "sender@example.org"}, {Kind: "rcpt", Arg: "rcpt@example.net", RO: ro}, {Kind: "quit"}}
+		emit(RunTrip(TripCase{Cfg: cfg, Calls: calls, Extra: []*Sx{L(A("focus"), A("C14"))}}))
+	}
 	// MailOptions.Body (known finding F14)
 	for _, body := range []smtp.BodyType{smtp.Body7Bit, smtp.Body8BitMIME, smtp.BodyBinaryMIME} {
 		cfg := fullCfg(false)
